@@ -143,11 +143,24 @@ def detect_copy(d, tier="quick", props=None):
         shutil.rmtree(vc_dir, ignore_errors=True)
 
 
+def matrix():
+    """Print the detection matrix recorded in seeded/*/meta.json."""
+    base = os.path.join(ROOT, "seeded")
+    for d in sorted(os.listdir(base)):
+        m = load_meta(os.path.join(base, d))
+        conf = (m.get("confirmation") or {}).get("confirmed")
+        det = m.get("detection") or {}
+        hits = ["%s%s" % (k, "" if v.get("detected") else "(missed)") for k, v in sorted(det.items())]
+        print("%-8s confirmed=%-5s %s" % (d, conf, " ".join(hits)))
+
+
 if __name__ == "__main__":
     a = sys.argv[1:]
     if a[0] == "confirm":
         confirm(a[1], a[2] if len(a) > 2 else None)
     elif a[0] == "detect":
         detect(a[1], a[2] if len(a) > 2 else "quick", a[3:] or None)
+    elif a[0] == "matrix":
+        matrix()
     elif a[0] == "detect-copy":
         detect_copy(a[1], a[2] if len(a) > 2 else "quick", a[3:] or None)
